@@ -29,8 +29,8 @@ META = {
     },
 }
 
-OBSERVATIONS = ["operations", "times", "duration", "acq", "plot_compact", "plot_full", "stim", "uuid", "copy", "unrolled_copy", "handle_times"]
-LISTING_CLASS = {"operations", "times", "acq", "plot_compact", "plot_full", "uuid"}
+OBSERVATIONS = ["operations", "times", "duration", "acq", "plot_compact", "plot_full", "plot_rejected", "stim", "uuid", "copy", "unrolled_copy", "handle_times"]
+LISTING_CLASS = {"operations", "times", "acq", "plot_compact", "plot_full", "plot_rejected", "uuid"}
 COPY_CLASS_MUT = {"apply_modifiers"}
 COPY_CLASS_OBS = {"copy", "unrolled_copy"}
 
@@ -302,6 +302,18 @@ class Run:
                 plt.close(fig)
             except Exception as exc:
                 acc.count("plot_raised_" + type(exc).__name__)
+            finally:
+                plt.close("all")
+        elif kind == "plot_rejected":
+            # a drawing that is (correctly) rejected - unknown channel in the requested order - is an observation like any other
+            import matplotlib.pyplot as plt
+            from qce_circuit.visualization.visualize_circuit.display_circuit import plot_circuit
+            try:
+                fig, ax = plot_circuit(circuit, channel_order=[97], compact_visualization=True)
+                plt.close(fig)
+                acc.count("plot_rejected_but_drawn")
+            except Exception as exc:
+                acc.count("plot_rejected_" + type(exc).__name__)
             finally:
                 plt.close("all")
         elif kind == "stim":
